@@ -25,6 +25,9 @@ func init() {
 			Fields: []string{"ctx", "cron"}, Calls: []string{"Start", "Stop", "Done"}},
 		skelTarget{Name: "kubeEventsManager.PauseHandleEvents", File: "pkg/kube_events_manager/kube_events_manager.go", Recv: "kubeEventsManager", Func: "PauseHandleEvents",
 			Fields: []string{"Monitors"}, Calls: []string{"PauseHandleEvents"}},
+		// the lock PauseHandleEvents needs is released by StartMonitor before monitor.Start (the wait for the API server)
+		skelTarget{Name: "kubeEventsManager.StartMonitor", File: "pkg/kube_events_manager/kube_events_manager.go", Recv: "kubeEventsManager", Func: "StartMonitor",
+			Fields: []string{"Monitors"}, Calls: []string{"Start"}},
 		skelTarget{Name: "monitor.PauseHandleEvents", File: "pkg/kube_events_manager/monitor.go", Recv: "monitor", Func: "PauseHandleEvents",
 			Fields: []string{"ResourceInformers", "VaryingInformers", "NamespaceInformer"}, Calls: []string{"pauseHandleEvents", "RangeValue"}},
 		skelTarget{Name: "resourceInformer.pauseHandleEvents", File: "pkg/kube_events_manager/resource_informer.go", Recv: "resourceInformer", Func: "pauseHandleEvents",
